@@ -622,6 +622,8 @@ fn segment_sequence(rng: &mut Rng) -> Vec<u8> {
     let mut out = Vec::new();
     let n = rng.urange(2, 6);
     let mut count = *rng.pick(&dom);
+    // a record may begin in the middle of a segmented message (segment 3 of 5 first) ...
+    let first = *rng.pick(&[1usize, 1, 2, 3, 4]);
     for k in 0..n {
         let mut h = MsgHeader::realistic(rng, code);
         if rng.chance(1, 3) {
@@ -629,7 +631,7 @@ fn segment_sequence(rng: &mut Rng) -> Vec<u8> {
         }
         h.seg_count = count;
         h.seg_num = match rng.below(4) {
-            0 => (k + 1) as u16,
+            0 | 3 => (k + first) as u16,
             1 => 1,
             _ => *rng.pick(&dom),
         };
@@ -647,6 +649,11 @@ fn segment_sequence(rng: &mut Rng) -> Vec<u8> {
             _ => rng.bytes(64),
         };
         out.extend_from_slice(&enc::frame(&h, &body, 0));
+    }
+    // ... and end inside its last frame, after that frame's header (a download cut short)
+    if rng.chance(1, 3) {
+        let keep = out.len() - rng.urange(1, enc::FRAME_BODY - 1);
+        out.truncate(keep);
     }
     out
 }
